@@ -18,6 +18,7 @@ Sca(e, nm, v) == Has(e, nm) => Close(e.m[nm], v, Tol)
 Mat(e, nm, F(_, _)) == Has(e, nm) => /\ Len(e.m[nm]) = e.n /\ \A r \in 1..e.n : Len(e.m[nm][r]) = e.n
                                      /\ \A a \in 1..e.n : \A b \in 1..e.n : Close(e.m[nm][a][b], F(a, b), Tol)
 
+NLinksU(A) == SumN(LAMBDA a : SumN(LAMBDA b : A[a][b], 1, Len(A)), 1, Len(A)) \div 2
 \* the checks, as a sequence of <<site, holds>>; evaluated one by one
 Checks(e) ==
   LET G == Ctx(e.A, e.directed, e.w)
@@ -105,6 +106,13 @@ Checks(e) ==
   <<"nsi_exponential_closeness", Vec(e, "nsi_exponential_closeness", LAMBDA k : NsiExpCloseness(D, w, k))>>,
   <<"nsi_global_efficiency", Sca(e, "nsi_global_efficiency", NsiGlobalEfficiency(D, w))>>,
   <<"betweenness", Divides(G.Sg) => Vec(e, "betweenness", LAMBDA k : Betweenness(G, k))>>,
+  \* Newman's random-walk betweenness n * b_i = 2/(n-1) * sum_{s<t} I_i(s,t) (unit current from s to t; the end
+  \* points carry 1): on a TREE every current is 0 or 1, so it is 2 + 2 B_i / (n-1) with the shortest-path
+  \* betweenness B_i; on the COMPLETE graph every third node carries 1/n, so it is 2 + (n-2)/n
+  <<"newman_betweenness(tree)", (und /\ conn /\ n >= 2 /\ NLinksU(e.A) = n - 1 /\ Divides(G.Sg)) =>
+        Vec(e, "newman_betweenness", LAMBDA k : 2 * S + FxDiv(2 * BetwLCM(G, k, 1..n, 1..n), 2 * LCM * (n - 1), S))>>,
+  <<"newman_betweenness(complete)", (und /\ n >= 3 /\ NLinksU(e.A) = (n * (n - 1)) \div 2) =>
+        Vec(e, "newman_betweenness", LAMBDA k : 2 * S + Q(n - 2, n))>>,
   <<"interregional_betweenness", (und /\ Divides(G.Sg)) =>
         Vec(e, "interregional_betweenness", LAMBDA k : InterregionalBetweenness(G, k, src, tgt))>>,
   <<"link_betweenness", Divides(G.Sg) => Mat(e, "link_betweenness", LAMBDA a, b : LinkBetweenness(G, a, b))>>,
